@@ -98,6 +98,7 @@ def line_info(raw_lines):
 def run_1090(bindir, segs, sent, tag):
     r = apps.run_1090(bindir, [{"segments": segs, "then": "hold"}])
     return {"ev": "feed", "client": "1090", "tag": tag, "mode": "hold", "sent": sent, "printed": [p.lower() for p in r["printed"]],
+            "blocks": r["blocks"],
             "alive": r["alive"], "exit": r["exit"], "panic": r["panic"], "keys_before": [], "keys_after": [], "reconnected": 0}
 
 
@@ -232,7 +233,21 @@ def run(prop, tier, seed, rep):
                          job[2], job[3], "retry", extra_args=["--retry-tcp"])
     with cf.ThreadPoolExecutor(max_workers=12) as ex:
         events = list(ex.map(do, jobs))
+    # composition (beyond the listed properties): what 1090 prints after a line is the library's rendering of that frame.
+    # The recorder renders the same bytes; TLC compares (drift only).
+    hx = core.build_hx("std")
+    want = sorted({b_["hex"] for e in events if e["client"] == "1090" for b_ in e.get("blocks", [])
+                   if len(b_["hex"]) in (14, 28) and all(c in "0123456789abcdef" for c in b_["hex"])})
+    ref = {}
+    if want:
+        for h, d in zip(want, core.run_hx(hx, ["decode", "--text"], [{"bytes": list(bytes.fromhex(h))} for h in want])):
+            ref[h] = d.get("rawtext", []) if any(c != "0" for c in h) else []     # all-zero lines are skipped by the clients
+    for e in events:
+        blocks = e.pop("blocks", [])
+        e["texts"] = [{"hex": b_["hex"], "got": b_["text"], "want": ref[b_["hex"]]} for b_ in blocks if b_["hex"] in ref]
     verdicts, st, tr = core.validate_events("Trace_Feed", events, prop, shards=1)
+    rep.extra["client_renderings_compared"] = sum(len(e["texts"]) for e in events)
+    rep.extra["client_rendering_drift"] = sum(1 for d in core.LAST_INFOS if d["what"] == "client_text")
     rep.add_trace_stats(st, tr, len(events))
     summary = {}
     for v in verdicts:
